@@ -494,11 +494,11 @@ func c06r5(r *R) {
 
 // reviewed writers of package-level variables outside init in the proxy's own packages
 var reviewedGlobalWriters = map[string]string{
-	"fingerprint.VerboseLogs|fingerproxy.initFingerprint":                    "start-up configuration from Run",
-	"fingerprint.Logger|fingerproxy.initFingerprint":                         "start-up configuration from Run",
+	"fingerprint.VerboseLogs|fingerproxy.initFingerprint":                      "start-up configuration from Run",
+	"fingerprint.Logger|fingerproxy.initFingerprint":                           "start-up configuration from Run",
 	"fingerprint.fingerprintDurationMetric|fingerprint.RegisterDurationMetric": "metric registration at start-up",
-	"certwatcher.Logger|fingerproxy.initCertWatcher":                         "start-up configuration",
-	"certwatcher.VerboseLogs|fingerproxy.initCertWatcher":                    "start-up configuration",
+	"certwatcher.Logger|fingerproxy.initCertWatcher":                           "start-up configuration",
+	"certwatcher.VerboseLogs|fingerproxy.initCertWatcher":                      "start-up configuration",
 }
 
 func c06r6(r *R) {
